@@ -81,7 +81,7 @@ def fn_at_line(built, line):
     return None
 
 
-def run_unit(unit, variant, scratch, rlimit=None, seed=None, extra_tag='', only_fn=None):
+def run_unit(unit, variant, scratch, rlimit=None, seed=None, extra_tag='', only_fn=None, smt_override=None):
     r = UnitRun(unit, variant)
     t0 = time.time()
     tmpl = os.path.join(VERIF, 'contracts', unit['template'])
@@ -101,7 +101,7 @@ def run_unit(unit, variant, scratch, rlimit=None, seed=None, extra_tag='', only_
         cmd += ['--rlimit', str(rlimit)]
     elif unit.get('rlimit'):
         cmd += ['--rlimit', str(unit['rlimit'])]
-    for o in unit.get('smt_options', ['smt.arith.nl=true']):
+    for o in (smt_override if smt_override is not None else unit.get('smt_options', ['smt.arith.nl=true'])):
         cmd += ['--smt-option', o]
     if seed:
         cmd += ['--smt-option', 'smt.random_seed=%d' % seed, '--smt-option', 'sat.random_seed=%d' % seed]
@@ -407,7 +407,23 @@ def _check_property(prop, tier, seed, mine, scratch, findings, t0):
                 violations.append((r, definite[0]))
                 fn_rows.append({'unit': uname, 'fn': name, 'status': 'FAILED: ' + definite[0]['message']})
             else:
-                undecided.append('%s: %s: %s' % (uname, name, '; '.join(e['message'] for e in errs) or 'failed without a diagnostic'))
+                # resource limit / timeout: under smt.arith.nl=true a *failing* query often diverges instead of failing. Ask once more
+                # for this function alone with the other arithmetic setting: a definite failure there is a violation, a proof there
+                # is a proof, anything else stays undecided.
+                cur = r.unit.get('smt_options', ['smt.arith.nl=true'])
+                alt = [] if 'smt.arith.nl=true' in cur else ['smt.arith.nl=true']
+                r3 = run_unit(r.unit, r.variant, scratch, rlimit=r.unit.get('rlimit', 60), seed=11 + seed, extra_tag='_alt', only_fn=name, smt_override=alt)
+                errs3 = [x for x in r3.errors if x['fn'] == name]
+                if r3.status == 'ok' and not errs3:
+                    discharged += 1
+                    fn_rows.append({'unit': uname, 'fn': name, 'status': 'verified (resource limit under %s, verified under %s)' % (cur or 'linear arithmetic', alt or 'linear arithmetic')})
+                    unstable.append('%s::%s hit the resource limit under the unit setting and verified with the other arithmetic setting' % (uname, name))
+                elif any(x['definite'] for x in errs3):
+                    d3 = [x for x in errs3 if x['definite']][0]
+                    violations.append((r3, d3))
+                    fn_rows.append({'unit': uname, 'fn': name, 'status': 'FAILED (after a resource limit under the unit setting): ' + d3['message']})
+                else:
+                    undecided.append('%s: %s: %s' % (uname, name, '; '.join(e['message'] for e in errs) or 'failed without a diagnostic'))
         # errors in functions that carry no property tag but are called by tagged ones (lemmas): attribute to unit
         for fn, errs in errs_by_fn.items():
             if fn in rel:
